@@ -5,7 +5,7 @@ from ..core import Family
 TRUSTED_BASE = [
     "Coq 8.16.1 kernel (coqc full .vo build)",
     "hand-written model coq/Model/Api.v + coq/Model/Lower.v of runtime_api/mod.rs (ExprBuilder methods, post_constraint_kind, "
-    "try_convert_to_linear_ast, try_extract_linear_form, materialize_constraint_kind, get_expr_var, post_expression_constraint), "
+    "try_convert_to_linear_ast, try_extract_linear_form, materialize_constraint_kind, reify_constraint_kind, get_expr_var, post_expression_constraint), "
     "model/core.rs (prepare_for_search), model/factory.rs, constraints/api/arithmetic.rs (add/sub/mul on variables), "
     "constraints/functions.rs (lin_eq/lin_le/lin_ne), core/validation.rs (reachable branches): modelled, not verified; tied by this "
     "run's STRUCTURAL differential (final domains of every variable incl. auxiliaries + the propagator list in PropId order, "
@@ -22,8 +22,8 @@ TRUSTED_BASE = [
 ]
 ASSUMPTIONS = [
     "vocabulary: int/intset/bool variables, integer constants, + - * mod, six comparisons, and/or/not, the helpers and_all/or_all/all_of/any_of over a Vec<Constraint>, lin_eq/lin_le/lin_ne, Model::add/sub/mul on variables",
-    "known classes (known_findings.txt): or_not, mod_rejected (divisor bounds containing 0), lin_zero_coeffs, modulo_prop; "
-    "aux_bounds, empty_domain_panic and nested_ne are repaired (fixed: entries)",
+    "known classes (known_findings.txt): mod_rejected (divisor bounds containing 0), lin_zero_coeffs, modulo_prop; "
+    "or_not (Or / Not now lowered through reification), aux_bounds, empty_domain_panic and nested_ne are repaired (fixed: entries)",
     "in-range condition of lower_denotes / spellings_agree (doms_nonempty on the lowered store): no auxiliary variable's computed range "
     "has more than MAX_SPARSE_SET_DOMAIN_SIZE values (the validator answers InvalidDomain; the model represents such a variable by the "
     "empty domain without materialising it; cases outside it are classed oversize_domain, the open finding filed under C02); the "
